@@ -128,7 +128,19 @@ def run_shard_main(pid, descfile, outfile):
     desc = json.load(open(descfile))
     ctx = Ctx(prop)
     try:
-        prop.run_shard(desc, ctx)
+        if desc.get("kind") == "__regress__":
+            # regression corpus: cases that once exposed a defect (on the pinned tree or on a seeded
+            # change) are replayed on every run, whatever the seed
+            for f in desc["files"]:
+                try:
+                    prop.replay(json.load(open(f)), ctx)
+                    ctx.count("regression_cases_replayed")
+                except Exception:
+                    ctx.notes.append(f"regression case {os.path.basename(f)} could not be replayed: "
+                                     + traceback.format_exc()[-400:])
+                    ctx.count("regression_cases_unreplayable")
+        else:
+            prop.run_shard(desc, ctx)
     except BaseException:
         ctx.notes.append("shard crashed: " + traceback.format_exc()[-1500:])
         ctx.counters["shard_crashed"] = ctx.counters.get("shard_crashed", 0) + 1
@@ -229,6 +241,12 @@ def main(argv=None):
         return 1 if n else 0
 
     descs = prop.plan(tier, seed)
+    import glob
+    reg = sorted(glob.glob(os.path.join(HERE, "replays", pid, "regress", "*.json")))
+    if reg:
+        n = 4 if len(reg) > 12 else 1
+        for i in range(n):
+            descs.append({"kind": "__regress__", "files": reg[i::n], "timeout": 1800})
     for k, d in enumerate(descs):
         d.setdefault("shard", k)
         d.setdefault("tier", tier)
